@@ -91,6 +91,10 @@ def leaked (w : W) : List Nat := (List.range w.nextJob).filter (fun j => !(stopp
 /-- … and the main task then waits for these job tasks for ever -/
 def hung (w : W) : List Nat := w.tasks.filter (fun j => !(stopped w).contains j && !w.dead.contains j)
 
+/-- an abort quit drops `jobtasks`, which aborts every task in it (the children die with their tasks): these started jobs are not
+    reached by it -/
+def abortLeaked (w : W) : List Nat := (List.range w.nextJob).filter (fun j => !w.tasks.contains j && !w.dead.contains j)
+
 def init (cfg : Fixes) : W := { cfg := cfg }
 
 end Rg
